@@ -8,6 +8,7 @@ import (
 	"regexp"
 	"strconv"
 	"strings"
+	"time"
 )
 
 // C17 — hijacked connections are handed over intact.
@@ -17,14 +18,18 @@ func init() {
 		Rule: "a hijacking request (optionally preceded by ordinary requests, which may call HijackSetNoResponse(true) without hijacking; optionally HijackSetNoResponse on the hijacking request) followed by arbitrary bytes E: in the same write, in a later write, or straddling the 4096-byte read buffer (head padded), " +
 			"x ReduceMemoryUsage x KeepHijackedConns x handler reading everything or only k bytes (the rest read after the handler returned when the connection is kept); " +
 			"monitor: bytes read from the hijacked connection = E exactly, response fully written before the hijack handler starts (nothing written with NoResponse), nothing written afterwards, closed iff not kept; " +
+			"hijack2: the bytes after the hijacking request are buffered with it, the hijack handler reads only after ANOTHER connection of the same server was served (pooled readers are reused); " +
 			"non-trivial = E non-empty; distinct = distinct input",
 		Parallel: true,
 		Build: func(kind string, a [][]byte) *Case {
+			if kind == "hijack2" {
+				return buildHijack2(a)
+			}
 			cfg := parseCfg(a[0])
-			preNR := strings.HasSuffix(string(a[1]), "n") // the ordinary requests call HijackSetNoResponse(true) without hijacking
+			preNR := strings.HasSuffix(string(a[1]), "n")                 // the ordinary requests call HijackSetNoResponse(true) without hijacking
 			pre, _ := strconv.Atoi(strings.TrimSuffix(string(a[1]), "n")) // ordinary requests before
-			pad, _ := strconv.Atoi(string(a[2]))   // padding header length
-			opts := string(a[3])                   // extra query options: "&hjn=1", "&hjk=5"
+			pad, _ := strconv.Atoi(string(a[2]))                          // padding header length
+			opts := string(a[3])                                          // extra query options: "&hjn=1", "&hjk=5"
 			E := a[4]
 			split := string(a[5]) // "same" | "later" | "mid"
 			var head bytes.Buffer
@@ -138,8 +143,46 @@ func init() {
 				if r.Chance(25) {
 					pre += "n"
 				}
+				if i%10 == 0 && len(E) > 0 {
+					// the hijack handler reads late: another connection of the same server is served in between
+					emit("hijack2", B(cfg), N(r.Intn(200)), E, N(len(E)+200+r.Intn(3000)))
+				}
 				emit("hijack", B(cfg), B(pre), N(pad), B(opts), E, B(r.Pick([]string{"same", "same", "later", "mid"})))
 			}
 		},
 	})
+}
+
+// buildHijack2: connection A sends a hijacking request with E in the same write; its hijack handler is parked before it
+// reads; connection B (a request with a long filler header) is served by the same server; then the handler reads.
+func buildHijack2(a [][]byte) *Case {
+	cfg := parseCfg(a[0])
+	pad, _ := strconv.Atoi(string(a[1]))
+	E := a[2]
+	fill, _ := strconv.Atoi(string(a[3]))
+	var head bytes.Buffer
+	fmt.Fprintf(&head, "GET /hj?hj=1&hjg=1 HTTP/1.1\r\nHost: h\r\n")
+	if pad > 0 {
+		fmt.Fprintf(&head, "X-Pad: %s\r\n", strings.Repeat("p", pad))
+	}
+	head.WriteString("\r\n")
+	cs := newConnServer(cfg)
+	cs.hjGate = make(chan struct{})
+	cs.noWait = true
+	resA := cs.run([][]byte{append(append([]byte(nil), head.Bytes()...), E...)})
+	resB := cs.run([][]byte{[]byte("GET /filler HTTP/1.1\r\nHost: h\r\nFiller: " + strings.Repeat("#", fill) + "\r\n\r\n")})
+	close(cs.hjGate)
+	done := waitTimeout(&cs.hjWG, 10*time.Second)
+	impl := fmt.Sprintf("ran=%v done=%v read=%s fillerDispatched=%d", resA.HijackRan, done, H(resA.HijackRead), len(resB.Dispatches))
+	return &Case{Impl: impl, Nontrivial: len(E) > 0, Tags: []string{"hijack2", fmt.Sprintf("rm=%v,khj=%v", cfg.ReduceMem, cfg.KeepHijacked)},
+		Judge: func([]string) Verdict {
+			desc := fmt.Sprintf("cfg=%q pad=%d filler=%d E=%q (another connection served before the hijack handler read): %s", a[0], pad, fill, trunc(E, 60), impl)
+			if !resA.HijackRan || !done {
+				return Verdict{VSpec, "hijack-handler-not-run", desc}
+			}
+			if !bytes.Equal(resA.HijackRead, E) {
+				return Verdict{VSpec, "hijack-bytes-differ", desc}
+			}
+			return Ok()
+		}}
 }
